@@ -9,6 +9,12 @@ open RotoV
 /-- the size-class minimum of `compute_capacity` (as documented in std's `Vec`) -/
 def minCap (sz : Nat) : Nat := if sz = 1 then 8 else if sz ≤ 1024 then 4 else 1
 
+set_option linter.unusedSimpArgs false in
+/-- The generated `compute_capacity` in closed form. The proof splits on the
+    three size classes and on `required = 0` and lets `simp` evaluate the
+    generated conditionals, so it does not depend on how the source spells or
+    orders its comparisons (`size > 1024` first, `1 == size`, …) — only on what
+    they compute. -/
 theorem compute_capacity_eq (sz req : Nat) :
     Gen.Capacity.compute_capacity true sz req =
       if req = 0 then .ok 0
@@ -16,14 +22,23 @@ theorem compute_capacity_eq (sz req : Nat) :
         | none => .panic
         | some p => .ok (ordMax p (minCap sz)) := by
   unfold Gen.Capacity.compute_capacity minCap
-  simp only [REq.eq, ROrd.le]
-  by_cases h : req = 0
-  · simp [h]
-  · cases hc : checkedNextPow2 req with
-    | none => simp [h, unwrapOpt]; split <;> (try split) <;> rfl
-    | some p =>
-      simp [h, unwrapOpt]
-      split <;> (try split) <;> rfl
+  simp only [REq.eq, ROrd.le, ROrd.lt, ROrd.gt, ROrd.ge]
+  by_cases h0 : req = 0
+  · simp [h0]
+  · rcases (by omega : sz = 1 ∨ (sz ≠ 1 ∧ sz ≤ 1024) ∨ 1024 < sz) with h | ⟨h1, h2⟩ | h
+    · subst h
+      cases checkedNextPow2 req <;> simp [h0, unwrapOpt]
+    · have f2 : ¬ 1 = sz := by omega
+      have f4 : ¬ 1024 < sz := by omega
+      have f5 : sz < 1025 := by omega
+      have f6 : ¬ 1025 ≤ sz := by omega
+      cases checkedNextPow2 req <;> simp [h0, unwrapOpt, h1, h2, f2, f4, f5, f6]
+    · have f1 : ¬ sz = 1 := by omega
+      have f2 : ¬ 1 = sz := by omega
+      have f3 : ¬ sz ≤ 1024 := by omega
+      have f5 : ¬ sz < 1025 := by omega
+      have f6 : 1025 ≤ sz := by omega
+      cases checkedNextPow2 req <;> simp [h0, unwrapOpt, h, f1, f2, f3, f5, f6]
 
 theorem le_nextPow2 (n : Nat) : n ≤ nextPow2 n := by
   unfold nextPow2
